@@ -57,7 +57,8 @@ type caseT struct {
 	Wait     bool // wait for each settlement before emitting the next on the same channel
 }
 
-var topics = []string{"t0", "t1", "t2", ""}
+// topics are used verbatim: "t1" and " t1" are two topics
+var topics = []string{"t0", "t1", "t2", "", " t1", "t2\n"}
 
 func genCase(t *rapid.T) caseT {
 	c := caseT{Msgs: map[string]mspec{}}
